@@ -30,7 +30,8 @@ IDF = z3.Function("IDF", I_, I_, I_)            # id of a value held as attribut
 
 
 def list_jobs():
-    return [("graph:add_child", "graph"), ("graph:remove_child", "graph"), ("graph:set_container", "graph")]
+    return [("graph:add_child", "graph"), ("graph:remove_child", "graph"), ("graph:set_container", "graph"),
+            ("graph:ancestors_to_child", "graph"), ("graph:init_ancestors", "graph")]
 
 
 def _member(qualcls, name):
@@ -365,6 +366,145 @@ def job_set_container(st, rlimit):
     return [(info, eng)]
 
 
+# ---------------------------------------------------------------------------------------------------- recorded ancestors
+class MaybeNone:
+    """an attribute that is None or an object, known only through a formula"""
+    def __init__(self, is_none): self.vf_is_none = is_none
+
+
+def _anc_list(eng, tag):
+    """a recorded-ancestor list: positions -> node identities, ids by NID, attachment by HASC; well-formed: no id twice"""
+    n = z3.Int(f"{tag}.len"); eng.assume(n >= 0)
+    S = z3.Function(f"{tag}.at", I_, I_)
+    NID = z3.Function("node.id", I_, I_); HASC = z3.Function("node.attached", I_, B_)
+    L = QList(n, lambda p: S(p), lambda j: NID(j), tag)
+    L.elem_attr = lambda I, j, name: MaybeNone(z3.Not(HASC(j))) if name == "modeling_obj_container" else (_ for _ in ()).throw(Unsupported(f"ancestor attribute {name}"))
+    p, q = z3.Ints("p q")
+    eng.assume(z3.ForAll([p, q], z3.Implies(z3.And(0 <= p, p < q, q < n), NID(S(p)) != NID(S(q)))))
+    return n, S, NID, HASC, L
+
+
+def job_ancestors_to_child(st, rlimit):
+    qual = f"{BASE}.ExplainableObject.return_direct_ancestors_with_id_to_child"
+    ex = extract(qual)
+    eng = Engine(rlimit=rlimit)
+
+    def thunk(eng_):
+        I = Interp(eng_, st["units"], specs={}, world=None)
+        try:
+            n, S, NID, HASC, L = _anc_list(eng_, "anc")
+            none = z3.Bool("container.none")
+            node = GNode(z3.Int("self"), {"modeling_obj_container": Opt(none, GCont(z3.Int("container"))), "direct_ancestors_with_id": L}, contracts=False)
+            I.phase = "body"
+            res = I.exec_function(ex.node, [node], qualname=qual)
+            attached = not eng_.decide(none)
+            if attached:
+                eng_.oblige(f"{qual}/an attached value hands itself (and nothing else) to its children", isinstance(res, list) and len(res) == 1 and res[0] is node)
+            else:
+                if not isinstance(res, QList): eng_.oblige(f"{qual}/an unattached value hands a list of its recorded ancestors", False); return
+                p, q, k, j = z3.Ints("p q k j")
+                at = res.src
+                eng_.oblige(f"{qual}/only attached recorded ancestors are handed down", z3.ForAll([p], z3.Implies(z3.And(0 <= p, p < res.n), z3.And(HASC(at(p)), z3.Exists([k], z3.And(0 <= k, k < n, S(k) == at(p)))))))
+                eng_.oblige(f"{qual}/every attached recorded ancestor is handed down", z3.ForAll([j], z3.Implies(z3.And(0 <= j, j < n, HASC(S(j))), z3.Exists([p], z3.And(0 <= p, p < res.n, at(p) == S(j))))))
+                eng_.oblige(f"{qual}/well-formed: no id twice in the list handed down", z3.ForAll([p, q], z3.Implies(z3.And(0 <= p, p < q, q < res.n), NID(at(p)) != NID(at(q)))))
+            eng_.obligations.append(Obligation(f"{qual}/cover", list(eng_.run.defs) + list(eng_.run.pc), z3.BoolVal(False), "cover", eng_.fn, tuple(eng_.run.taken)))
+        except Unsupported as e:
+            eng_.undecided(f"{qual}/unsupported", str(e))
+    eng.explore(thunk, qual)
+    return [(ex.info(), eng)]
+
+
+def job_init_ancestors(st, rlimit):
+    """ExplainableObject.__init__: the recorded ancestors of a new value are the union of what its parents hand down, each id once"""
+    qual = f"{BASE}.ExplainableObject.__init__"
+    ex = extract(qual)
+    eng = Engine(rlimit=rlimit)
+
+    def thunk(eng_):
+        I = Interp(eng_, st["units"], specs={}, world=None)
+        try:
+            handed = {}
+            def mk_parent(tag):
+                n, S, NID, HASC, L = _anc_list(eng_, f"handed.{tag}")
+                handed[tag] = (n, S, NID, L)
+                node_ = GNode(z3.Int(f"parent.{tag}"), {}, contracts=True)
+                node_.handed = L
+                return node_
+            lp, rp = mk_parent("left"), mk_parent("right")
+            ln, rn = z3.Bool("left.none"), z3.Bool("right.none")
+            me = GNode(z3.Int("self"), {}, contracts=False)
+            label = Label(z3.Bool("label.nonempty"))
+            I.phase = "body"
+            try:
+                I.exec_function(ex.node, [me, Opaque("value"), label, Opt(ln, lp), Opt(rn, rp), NONE, NONE], qualname=qual, ghost={"super": GSuperFactory(me)})
+                outcome = "ret"
+            except SymRaise as e:
+                outcome = "raise:" + e.exc
+            eng_.oblige(f"{qual}/refused exactly when it has neither label nor parent", z3.And(z3.Not(label.nonempty), ln, rn) == z3.BoolVal(outcome != "ret"))
+            if outcome == "ret":
+                F_ = me.attrs.get("direct_ancestors_with_id")
+                NID = handed["left"][2]
+                x, k, p, q = z3.Ints("x!m k p q")
+                def ids_of(n_, S_): return z3.Exists([k], z3.And(0 <= k, k < n_, NID(S_(k)) == x))
+                want = z3.Or(z3.And(z3.Not(ln), ids_of(handed["left"][0], handed["left"][1])), z3.And(z3.Not(rn), ids_of(handed["right"][0], handed["right"][1])))
+                if isinstance(F_, list) and not F_:
+                    got = z3.BoolVal(False); wf = z3.BoolVal(True)
+                elif isinstance(F_, QList):
+                    got = z3.Exists([k], z3.And(0 <= k, k < F_.n, NID(F_.src(k)) == x))
+                    wf = z3.ForAll([p, q], z3.Implies(z3.And(0 <= p, p < q, q < F_.n), NID(F_.src(p)) != NID(F_.src(q))))
+                else:
+                    eng_.oblige(f"{qual}/recorded ancestors are a list", False); return
+                # the equivalence is split in its two directions, the comprehension facts instantiated by hand at the skolem positions
+                parts = []
+                def flat(L_, off):
+                    co = getattr(L_, "concat_of", None)
+                    if co is not None:
+                        flat(co[0], off); flat(co[1], off + co[0].n)
+                    elif getattr(L_, "filter_of", None) is not None:
+                        parts.append((off, L_))
+                if isinstance(F_, QList): flat(F_, z3.IntVal(0))
+                def fact_b(R, p_):
+                    L0, pos, wit, keep = R.filter_of
+                    return z3.Implies(z3.And(0 <= p_, p_ < R.n), z3.And(0 <= pos(p_), pos(p_) < L0.n, keep(L0.src(pos(p_)))))
+                def fact_d(R, j_):
+                    L0, pos, wit, keep = R.filter_of
+                    return z3.Implies(z3.And(0 <= j_, j_ < L0.n, keep(L0.src(j_))), z3.And(0 <= wit(j_), wit(j_) < R.n, pos(wit(j_)) == j_))
+                saved = list(eng_.run.pc)
+                k0 = z3.Int("k0!")
+                if isinstance(F_, QList):
+                    eng_.assume(z3.And(0 <= k0, k0 < F_.n, NID(F_.src(k0)) == x))
+                    for off, R in parts: eng_.assume(fact_b(R, k0 - off))
+                    eng_.oblige(f"{qual}/C08: every recorded ancestor id was handed down by a parent", want)
+                    eng_.run.pc[:] = saved
+                for tag, none_ in (("left", ln), ("right", rn)):
+                    n_, S_ = handed[tag][0], handed[tag][1]
+                    k1 = z3.Int(f"k1!{tag}")
+                    eng_.assume(z3.And(z3.Not(none_), 0 <= k1, k1 < n_, NID(S_(k1)) == x))
+                    for off, R in parts:
+                        if R.filter_of[0] is handed[tag][3]: eng_.assume(fact_d(R, k1))
+                    eng_.oblige(f"{qual}/C08: every id handed down by the {tag} parent is recorded", got)
+                    eng_.run.pc[:] = saved
+                eng_.oblige(f"{qual}/C08: no ancestor id is recorded twice", wf)
+                ch = me.attrs.get("direct_children_with_id")
+                eng_.oblige(f"{qual}/a new value has no children", isinstance(ch, list) and not ch)
+                c_ = me.attrs.get("modeling_obj_container")
+                eng_.oblige(f"{qual}/a new value is unattached", c_ is NONE)
+            eng_.obligations.append(Obligation(f"{qual}/cover", list(eng_.run.defs) + list(eng_.run.pc), z3.BoolVal(False), "cover", eng_.fn, tuple(eng_.run.taken)))
+        except Unsupported as e:
+            eng_.undecided(f"{qual}/unsupported", str(e))
+    eng.explore(thunk, qual)
+    return [(ex.info(), eng)]
+
+
+def c_handed(I, node):
+    """contract of return_direct_ancestors_with_id_to_child as seen by a child under construction: a well-formed list (no id twice)"""
+    return node.handed
+
+
+CONTRACTS["return_direct_ancestors_with_id_to_child"] = c_handed
+
+
 def run(job_id, st, rlimit):
     which = job_id.split(":", 1)[1]
-    return {"add_child": job_add_child, "remove_child": job_remove_child, "set_container": job_set_container}[which](st, rlimit)
+    return {"add_child": job_add_child, "remove_child": job_remove_child, "set_container": job_set_container,
+            "ancestors_to_child": job_ancestors_to_child, "init_ancestors": job_init_ancestors}[which](st, rlimit)
